@@ -153,7 +153,7 @@ func (s *State) Canon(v ssa.Value) ssa.Value {
 		case *ssa.UnOp:
 			if x.Op == token.MUL {
 				if cell := s.P.cellOf(s.Canon(x.X)); cell != nil {
-					if sv := s.P.SingleStore(cell); sv != nil && !s.P.partiallyWritten(cell) {
+					if sv := s.P.SingleStore(cell); sv != nil && !s.P.partiallyWritten(cell) && s.P.storeReaches(s.P.Stores(cell)[0], x) {
 						v = sv
 						continue
 					}
@@ -852,3 +852,51 @@ func structNonNil(v ssa.Value) bool {
 // pureGetters are argument-less interface methods documented to return a constant of the receiver
 // (cipher.AEAD.NonceSize/Overhead, hash.Hash.Size/BlockSize).
 var pureGetters = map[string]bool{"NonceSize": true, "Overhead": true, "Size": true, "BlockSize": true}
+
+func instrIndex(ins ssa.Instruction) int {
+	for i, x := range ins.Block().Instrs {
+		if x == ins {
+			return i
+		}
+	}
+	return -1
+}
+
+func dominatesInstr(a, b ssa.Instruction) bool {
+	if a.Block() == b.Block() {
+		return instrIndex(a) < instrIndex(b)
+	}
+	return a.Block().Dominates(b.Block())
+}
+
+// storeReaches: the (only) store to a variable cell certainly executed before the load: it is in the cell's own
+// function and dominates the load, or dominates every creation site of the closure (chain) the load sits in.
+// Otherwise the load may still observe the variable's zero value.
+func (p *Prog) storeReaches(st *ssa.Store, load ssa.Instruction) bool {
+	home := st.Parent()
+	cell := p.cellOf(st.Addr)
+	if cell == nil || cell.Parent() != home {
+		return false
+	}
+	f := load.Parent()
+	if f == home {
+		return dominatesInstr(st, load)
+	}
+	// climb to the literal created directly in home
+	for f != nil && f.Parent() != home {
+		f = f.Parent()
+	}
+	if f == nil {
+		return false
+	}
+	sites := p.MakeClosureSites(f)
+	if len(sites) == 0 {
+		return false
+	}
+	for _, mc := range sites {
+		if mc.Parent() != home || !dominatesInstr(st, mc) {
+			return false
+		}
+	}
+	return true
+}
